@@ -38,7 +38,7 @@ pub fn get_line_number(char_number: usize, file_contents: &str) -> i32 {
         }
     }
 
-    return 0;
+    return i;
 }
 
 pub fn storage_slots_used(variables: Vec<u16>) -> u32 {
